@@ -9,6 +9,7 @@
 import Aquatic.Model.Tracker
 import Aquatic.Generated.Consts
 import Aquatic.Model.HttpConn
+import Aquatic.Model.HttpShards
 import Driver.Util
 
 open Aquatic Drv
@@ -25,6 +26,14 @@ structure St where
   cfg : Cfg := {}
   ts : TState := {}
   rt : RT := {}
+  /-- HTTP: the same history on the model with `nw` swarm workers (`Model/HttpShards`; 1 for the in-process store) -/
+  nw : Nat := 1
+  h4 : Shards := [[]]
+  h6 : Shards := [[]]
+
+def St.withWorkers (s : St) (n : Nat) : St :=
+  let n := if n = 0 then 1 else n
+  { s with nw := n, h4 := List.replicate n [], h6 := List.replicate n [] }
 
 def St.m4 (s : St) : TMap := s.ts.m4
 def St.m6 (s : St) : TMap := s.ts.m6
@@ -180,6 +189,69 @@ def stepCln (s : St) (a : List String) (out : List String) : St × Verdict × Li
     | _, _ => (s, .mismatch "model=panic", [])
   | _ => (s, .bad "cln arity", [])
 
+/-! ### HTTP: the same operations on the `n`-worker model (C16) -/
+
+def combine (r : St × Verdict × List String) (sh : St → St × Option String) : St × Verdict × List String :=
+  let (s1, v, notes) := r
+  let (s2, bad) := sh s1
+  match v, bad with
+  | .ok, some t => (s2, .mismatch s!"model with {s2.nw} swarm workers: {t}", notes)
+  | _, _ => (s2, v, notes)
+
+def shadowAnn (s0 : St) (fam : String) (a : List String) (out : List String) (s : St) : St × Option String :=
+  if !s0.cfg.http then (s, none) else
+  match a, out with
+  | [hash, ip, port, event, left, numwant, dl, pidS], is :: il :: ipeers :: _ =>
+    let h := hexNat hash
+    let key : Key := (hexNat ip, nat! port)
+    let st := statusOf (event = "stopped") (int! left)
+    let n := clampHttp s0.cfg.maxPeers (if numwant = "-" ∨ numwant.startsWith "-" then none else some (nat! numwant))
+    let ss := if fam = "4" then s0.h4 else s0.h6
+    let pm := (((ss[route s0.nw h]?).getD []).get h).getD (.small [])
+    let implPeers := (sepList ";" ipeers).map parseKey
+    let (len1, wasLarge) := match pm with
+      | .large l _ => ((swapRemove l key).1.length, true)
+      | .small _ => (0, false)
+    let pairs := if wasLarge then offsetPairs len1 n else [(0, 0)]
+    let results : List (Except Panic (Shards × AnnOut)) :=
+      pairs.map (fun (o1, o2) => shardAnnounce s0.cfg.c s0.nw ss h key st (hexNat pidS) (nat! dl) n o1 o2)
+    let good := results.find? (fun x => match x with
+      | .ok (_, o) => o.seeders = nat! is ∧ o.leechers = nat! il ∧ o.peers = implPeers
+      | .error _ => false)
+    let put (ss' : Shards) : St := if fam = "4" then { s with h4 := ss' } else { s with h6 := ss' }
+    match good, results.head? with
+    | some (.ok (ss', _)), _ => (put ss', none)
+    | _, some (.ok (ss', o)) => (put ss', some s!"({o.seeders},{o.leechers},{showKeys o.peers}) for the first of {pairs.length} draws")
+    | _, some (.error p) => (s, some s!"panic:{repr p}")
+    | _, none => (s, none)
+  | _, _ => (s, none)
+
+def shadowScr (s0 : St) (fam : String) (a : List String) (out : List String) (s : St) : St × Option String :=
+  if !s0.cfg.http then (s, none) else
+  match a, out with
+  | [hs], impl :: _ =>
+    let ss := if fam = "4" then s0.h4 else s0.h6
+    match shardScrape s0.nw s0.cfg.maxScrape ss (hexNatList "," hs) with
+    | .ok files =>
+      let text := if files.isEmpty then "-" else String.intercalate "," (files.map (fun (k, (a, b)) => s!"{natHex 40 k}={a}:{b}"))
+      if text = impl then (s, none) else (s, some text)
+    | .error p => (s, some s!"panic:{repr p}")
+  | _, _ => (s, none)
+
+def shadowCln (s0 : St) (a : List String) (s : St) : St × Option String :=
+  if !s0.cfg.http then (s, none) else
+  match a with
+  | [now, mode, list] =>
+    let allowed := allowedFn mode (hexNatList "," list)
+    let go (ss : Shards) : Except Panic Shards :=
+      (List.range s0.nw).foldl (fun acc i => match acc with
+        | .ok x => shardClean s0.cfg.c x i (nat! now) allowed
+        | .error e => .error e) (.ok ss)
+    match go s0.h4, go s0.h6 with
+    | .ok a4, .ok a6 => ({ s with h4 := a4, h6 := a6 }, none)
+    | _, _ => (s, some "panic")
+  | _ => (s, none)
+
 def step (s : St) (ts : List String) : St × Verdict × List String :=
   let (a, out) := splitArrow ts
   match a with
@@ -187,24 +259,26 @@ def step (s : St) (ts : List String) : St × Verdict × List String :=
     let http := kind = "http"
     ({ cfg := { http := http, c := if http then Generated.httpSmallCap else Generated.udpSmallCap,
                 maxPeers := nat! maxPeers, maxScrape := nat! maxScrape } }, .skip, ["history"])
-  | ["new"] => ({ cfg := s.cfg }, .skip, [])
+  | ["new"] => (({ cfg := s.cfg } : St).withWorkers s.nw, .skip, [])
   | "net" :: rest =>
     if rest.any (fun t => t.startsWith "START-FAILED" ∨ t.startsWith "TRACKER-EXITED") then
       (s, .specfail s!"tracker process: {rest}", ["net-problem"])
-    else (s, .skip, rest.filter (fun t => t.startsWith "socket_workers" ∨ t.startsWith "swarm_workers" ∨ t.startsWith "keep_alive" ∨ t = "boundary=true" ∨ t = "proxy=true"))
+    else
+      let nw := match rest.find? (·.startsWith "swarm_workers=") with | some t => nat! ((t.splitOn "=").getD 1 "1") | none => 1
+      (s.withWorkers nw, .skip, rest.filter (fun t => t.startsWith "socket_workers" ∨ t.startsWith "swarm_workers" ∨ t.startsWith "keep_alive" ∨ t = "boundary=true" ∨ t = "proxy=true"))
   | "ann" :: fam :: rest =>
     if out.head? = some "NOREPLY" then
       -- no complete reply reached the client; the announce may or may not have been applied
       let r := stepAnn s fam rest ["0", "0", "-"]
       (r.1, .specfail s!"no complete reply: {out}", ["noreply"])
     else if out.head? = some "FAILURE" then (s, .specfail s!"failure reply: {out}", ["failure-reply"])
-    else stepAnn s fam rest out
+    else combine (stepAnn s fam rest out) (shadowAnn s fam rest out)
   | "scr" :: fam :: rest =>
     if out.head? = some "NOREPLY" then
       let n := match rest with | [hs] => (hexNatList "," hs).length | _ => 0
       (s, .specfail s!"no complete reply to a scrape of {n} hashes: {out} class=http-scrape-reply-exceeds-response-buffer-n{if n ≥ 58 then "ge58" else "lt58"}", ["noreply"])
-    else stepScr s fam rest out
-  | "cln" :: rest => stepCln s rest out
+    else combine (stepScr s fam rest out) (shadowScr s fam rest out)
+  | "cln" :: rest => combine (stepCln s rest out) (shadowCln s rest)
   | _ => (s, .bad "unknown op", [])
 
 def main : IO Unit := do
